@@ -528,6 +528,7 @@ fn qparts(c: &Ctx, v: &V, parts: &[Part], prev: Prev) -> R<Vec<M>> {
                 _ => qparts(c, v, rest, pv),
             }
         }
+        Part::CapFilter(..) => Err(ModelErr::Unsupported("key capture".into())),
         Part::Filter(cnf) => {
             let test = |x: &V| -> R<bool> {
                 let cc = c.with(x.clone(), c.scopes.clone());
